@@ -157,6 +157,42 @@ def same_length_edit(rng, text):
     return offs[a], offs[b], ins
 
 
+def delete_token_edit(rng, text):
+    """deletes exactly one token (keywords and brackets preferred): a pure deletion on token level - what stood behind the
+    token now continues what stood in front of it (`proc` behind a procedure whose `}` is missing, `else`, `{`, `;`)"""
+    offs = editgen.byte_offsets(text)
+    code = [(m.start(), m.end()) for m in re.finditer(r"//[^\r\n]*", text)]
+    hits = [m for m in re.finditer(r"\b(proc|type|else|if|while|var|ref|of|array)\b|[{}();\[\]]|:=", text)
+            if not any(a <= m.start() < b for a, b in code)]
+    if rng.random() < 0.3:
+        hits = [m for m in re.finditer(r"[A-Za-z_][A-Za-z_0-9]*|[0-9]+", text) if not any(a <= m.start() < b for a, b in code)]
+    if not hits:
+        return None
+    m = rng.choice(hits)
+    return offs[m.start()], offs[m.end()], ""
+
+
+def unclosed_then_delete(rng, text):
+    """(initial text, edit): one closing token (`}`, `)`, `]`, `;`) is missing from the start, and the edit deletes exactly the
+    token that follows the gap - the construct in front, which that token had ended, now continues"""
+    code = [(m.start(), m.end()) for m in re.finditer(r"//[^\r\n]*", text)]
+    closers = [m for m in re.finditer(r"[})\];]", text) if not any(a <= m.start() < b for a, b in code)]
+    if not closers:
+        return None
+    m = rng.choice([x for x in closers if x.group() == "}"] or closers) if rng.random() < 0.6 else rng.choice(closers)
+    t0 = text[:m.start()] + text[m.end():]
+    code0 = [(x.start(), x.end()) for x in re.finditer(r"//[^\r\n]*", t0)]
+    nxt = None
+    for x in re.finditer(r"[A-Za-z_][A-Za-z_0-9]*|[0-9]+|:=|<=|>=|[^\sA-Za-z_0-9]", t0):
+        if x.start() >= m.start() and not any(a <= x.start() < b for a, b in code0):
+            nxt = x
+            break
+    if nxt is None:
+        return None
+    offs = editgen.byte_offsets(t0)
+    return t0, (offs[nxt.start()], offs[nxt.end()], "")
+
+
 def gen_histories(rng, n, faulty=False):
     """[(shape, initial text, [[(cs, ce, ins)]])]; faulty: the documents carry diagnostics from the start (C01: what is published
     after edits in front of them)"""
@@ -171,15 +207,26 @@ def gen_histories(rng, n, faulty=False):
         else:
             prog = semtest.well_typed(rng, ndecls=rng.randrange(1, 5))
             text = splgen.render(splgen.flatten(prog), rng, comments=rng.choice([0.15, 0.3, 0.5]), newline=rng.choice(["\n", "\n", "\r\n"]))
+            if rng.random() < 0.3:
+                # start from a damaged document: one bracket / semicolon missing
+                e = delete_token_edit(rng, text)
+                if e is not None:
+                    text = editgen.apply_change(text, *e)
         cur, notes, shape = text, [], []
+        if rng.random() < 0.12:
+            ud = unclosed_then_delete(rng, text)
+            if ud is not None:
+                text, e = ud
+                out.append(("unclosed-delete-next", text, [[e]]))
+                continue
         for _ in range(rng.choice([1, 1, 2, 3])):
             chs = []
             for _ in range(rng.choice([1, 1, 2])):
                 kind = rng.choice(["comment", "comment", "neutral", "append", "blank", "blank", "random", "random", "extend", "extend"]
-                                  + (["samelen"] * 6 if faulty else ["samelen"]))
+                                  + (["samelen"] * 6 if faulty else ["samelen"]) + ["deltoken"] * 3)
                 e = (comment_edit(rng, cur) if kind == "comment" else c03hist.neutral(rng, cur) if kind == "neutral"
                      else blank_replace(rng, cur) if kind == "blank" else random_edit(rng, cur) if kind == "random"
-                     else same_length_edit(rng, cur) if kind == "samelen"
+                     else same_length_edit(rng, cur) if kind == "samelen" else delete_token_edit(rng, cur) if kind == "deltoken"
                      else extend_token_edit(rng, cur) if kind == "extend" else append_decl(rng, cur))
                 if e is None:
                     continue
